@@ -133,6 +133,10 @@ func runCheck(prop, tier string, verbose bool) int {
 		timeout = 60
 		all = true
 	}
+	if v := os.Getenv("GOVC_TIMEOUT_S"); v != "" {
+		// debugging aid (exercises the second pass): per-query budget of the first pass
+		fmt.Sscan(v, &timeout)
+	}
 	var reps []*FuncReport
 	var missing []string
 	for _, pat := range cfg.Functions {
